@@ -755,6 +755,45 @@ def translate(repo):
           "Definition src_pfs_push : list pstmt := [%s]." % "; ".join(pf["push"]),
           "Definition src_pfs_new_shape_ok : bool := %s." % ("true" if pf["new_ok"] else "false"), ""]
 
+    # ---- src/http_conn.rs: HttpConn::write_response after its state guard -- the per-call byte counter, `close`, what
+    #      happens to write_state and the socket after the write
+    wr = None
+    try:
+        hsrc = read(repo, "src/http_conn.rs")
+        body = re.sub(r"\s+", "", fn_body(hsrc, "pub async fn write_response"))
+        m = re.fullmatch(
+            r"matchself\.write_state\{(?:[^{}]|\{\})*\}"
+            r"letmutwrite_counter=AsyncWriteCounter::new\(&mutself\.stream\);"
+            r"letclose=\((\d+)\.\.=(\d+)\)\.contains\(&response\.code\);"
+            r"letresult=write_http_response\(&mutwrite_counter,response,close\)\.await;"
+            r"ifresult\.is_ok\(\)\{((?:if!response\.is_1xx\(\)\{self\.write_state=WriteState::None;\}|ifclose\{self\.shutdown_write\(\);\})*)\}"
+            r"elseifwrite_counter\.num_bytes_written\(\)>0\{self\.shutdown_write\(\);\}result", body)
+        if not m:
+            raise ValueError("shape after the guard")
+        ok = []
+        rest = m.group(3)
+        while rest:
+            a = "if!response.is_1xx(){self.write_state=WriteState::None;}"
+            b = "ifclose{self.shutdown_write();}"
+            if rest.startswith(a):
+                ok.append("WASetNoneUnless1xx"); rest = rest[len(a):]
+            elif rest.startswith(b):
+                ok.append("WAShutdownIfClose"); rest = rest[len(b):]
+            else:
+                raise ValueError("ok branch %r" % rest[:40])
+        wr = (int(m.group(1)), int(m.group(2)), ok)
+        sw = re.sub(r"\s+", "", fn_body(hsrc, "pub fn shutdown_write"))
+        if not re.fullmatch(r"let_ignored=self\.stream\.shutdown\(Shutdown::Write\);self\.write_state=WriteState::Shutdown;", sw):
+            raise ValueError("shutdown_write %r" % sw[:80])
+    except Exception as e:   # noqa
+        P.append("src/http_conn.rs write_response: cannot translate (%s)" % e)
+        wr = (500, 599, [])
+    L += ["(* src/http_conn.rs HttpConn::write_response after the state guard: close = (lo..=hi).contains(code); the byte",
+          "   counter is created per call; the statements of the Ok branch in order; the Err branch shuts down iff the counter > 0 *)",
+          "Definition src_wr_close_lo : N := %d." % wr[0],
+          "Definition src_wr_close_hi : N := %d." % wr[1],
+          "Definition src_wr_ok_branch : list wr_after := [%s]." % "; ".join(wr[2]), ""]
+
     # ---- src/token_set.rs: TokenSet::new, the three ways to take a token, Token::drop -- statement by statement
     tk = dict(new=[], drop=[], takes=[])
     try:
@@ -836,7 +875,7 @@ def translate(repo):
     items = [("chunk", "src/util.rs"), ("event_queue", "src/response.rs"), ("conn_buf", "src/http_conn.rs HttpConn.buf"), ("conn_guards", "src/http_conn.rs state guards"),
              ("time", "src/time.rs"), ("content_type", "src/content_type.rs"), ("log_prio", "src/log/logger.rs log()"),
              ("event_fmt", "src/event.rs"), ("regex", "src/head.rs"), ("cookie", "src/cookie.rs"), ("request", "src/request.rs"),
-             ("json", "src/log/tag_value.rs"), ("jsonl", "src/log/logger.rs write_jsonl"), ("writer", "src/log/log_file_writer.rs"), ("headers", "src/headers.rs"), ("pfs", "src/log/prefix_file_set.rs"), ("token_set", "src/token_set.rs")]
+             ("json", "src/log/tag_value.rs"), ("jsonl", "src/log/logger.rs write_jsonl"), ("writer", "src/log/log_file_writer.rs"), ("headers", "src/headers.rs"), ("pfs", "src/log/prefix_file_set.rs"), ("token_set", "src/token_set.rs"), ("write_response", "src/http_conn.rs write_response")]
     L.append("(* what the translator could not read, per item (0 everywhere = the translation is complete) *)")
     for key, prefix in items:
         L.append("Definition src_problems_%s : nat := %d." % (key, sum(1 for p in P if p.startswith(prefix))))
